@@ -6,6 +6,7 @@ import RelicVerif.Spec.BinCurve
 import RelicVerif.Model.BinFast
 import RelicVerif.Model.Tnaf
 import RelicVerif.Model.Fb
+import RelicVerif.Model.FbInv
 import RelicVerif.Model.Eb
 import RelicVerif.Model.EbMul
 import RelicVerif.Model.Rec
@@ -99,6 +100,10 @@ def fmtPoint : Point → String
   | none => "inf"
   | some (x, y) => natToHex x ++ "," ++ natToHex y
 
+def optHex : Option Nat → String
+  | some v => natToHex v
+  | none => "none"
+
 def cls (s : String) : Option Verdict := some { model := s, spec := [s] }
 /-- spec as a predicate on the implementation's answer -/
 def pred (got : String) (ok : Bool) (descr : String) (tags : List String := []) : Option Verdict :=
@@ -167,9 +172,18 @@ def handleField (e : FEnv) (w : Nat) (op : String) (args : List String) (got : S
         let mdl :=
           if o == "inv_basic" && F.m % 2 = 1 then natToHex (Relic.Model.Fb.invBasicChain nops F.m a)
           else if o == "inv_itoht" && F.m % 2 = 1 && chain.length > 1 then natToHex (Relic.Model.Fb.invItohtChain nops chain a).1
+          else if o == "inv_binar" then optHex (Relic.Model.FbInv.invBinar D.w F a)
+          else if o == "inv_almos" then optHex (Relic.Model.FbInv.invAlmos D.w F a)
+          else if o == "inv_exgcd" then optHex (Relic.Model.FbInv.invExgcd F a)
+          else if o == "inv_bruch" then optHex (Relic.Model.FbInv.invBruch D.w D.n F a)
+          else if o == "inv_ctaia" then optHex (Relic.Model.FbInv.invCtaia D.w D.n F a)
           else natToHex (K.inv a)
         mpred mdl got (got != "err" && F.isElem c && K.mul a c == 1 && got == natToHex c) ("<c with a*c = 1> e.g. " ++ natToHex (K.inv a))
-          (if o == "inv_basic" || o == "inv_itoht" then ["model.chain"] else [])
+          (if o == "inv_basic" || o == "inv_itoht" then ["model.chain"]
+           else if o == "inv_bruch" || o == "inv_ctaia" then ["model.fixedpass"]
+           else if o == "inv_binar" || o == "inv_almos" || o == "inv_exgcd" then
+             ["model.euclid", "euclid.deg" ++ (if bitLen a == 1 then "0" else if bitLen a == F.m then "top" else if a % 2 == 0 then "even" else "odd")]
+           else [])
     else if o.startsWith "srt" then
       let c := (parseHexNat got).getD 0
       let srz := ((e.kv.lookup "srz").bind parseHexNat).getD 0
@@ -261,8 +275,11 @@ def handleField (e : FEnv) (w : Nat) (op : String) (args : List String) (got : S
   | "fb_invsim", _ :: n :: rest => do
     let n ← n.toNat?
     let vals ← (rest.take n).mapM parseHexNat
-    if vals.any (· == 0) then cls "err"
-    else cls (String.intercalate ";" (vals.map fun a => el (K.inv a)))
+    let mdl := match Relic.Model.FbInv.invSim K.mul (fun x => if x = 0 then none else some (K.inv x)) vals with
+      | none => "err"
+      | some out => String.intercalate ";" (out.map el)
+    let spec := if vals.any (· == 0) then "err" else String.intercalate ";" (vals.map fun a => el (K.inv a))
+    ms mdl spec ["model.invsim", "invsim.n" ++ toString (min n 4), if vals.any (· == 0) then "invsim.zero" else "invsim.nz"]
   | "fbq", o :: al :: a0 :: a1 :: rest => do
     let a0 ← parseHexNat a0
     let a1 ← parseHexNat a1
